@@ -250,3 +250,110 @@ func lowerBound(v ssa.Value, blk *ssa.BasicBlock, depth int) *big.Int {
 	}
 	return lb
 }
+
+// R-CONSTINDEX — a constant index into a slice that the function itself has advanced (x = x[k:])
+// is proven in range by the dominating length tests, or the site is in the table of invariants
+// confirmed by reading. After an advance nothing is known about what remains: s[0] on a string
+// that ends right after an escape sequence panics.
+func init() {
+	Register(&Rule{
+		ID:    "R-CONSTINDEX",
+		Doc:   "in the json parser and decoder functions, every b[c] with constant c on a slice value that is (a φ of) a reslice made in the same function is dominated by a length fact len(b) > c (interval reasoning over branch edges, hasPrefix-style guards included), or is listed with the validated-input invariant that makes it safe",
+		Props: []string{"C06", "C17"},
+		Min:   map[string]int{"C06": 5, "C17": 5},
+		Run:   runConstIndex,
+	})
+}
+
+// constIndexInvariants: sites whose safety rests on an invariant established elsewhere.
+var constIndexInvariants = map[string]string{
+	"constindex:json.(decoder).decodeFromStringToInt:[0]":   "reached only when hasLeadingZeroes(v) returned true, which requires at least two bytes",
+	"constindex:json.(decoder).decodeFromStringToInt:[0]#2": "reached only when hasLeadingZeroes(v) returned true, which requires at least two bytes",
+	"constindex:json.(decoder).decodeInterface:[0]":         "v is the value returned by a successful parseValue: at least one byte",
+	"constindex:json.(decoder).parseStringUnquote:[0]":      "s was validated by parseString: every backslash is followed by an escape character, so one byte remains after the backslash",
+}
+
+func runConstIndex(c *core.Ctx) []core.Obligation {
+	b := newOb(c, "R-CONSTINDEX")
+	props := []string{"C06", "C17"}
+	for _, fn := range c.RepoFunctions() {
+		name := shortName(fn)
+		if fn.Blocks == nil || fn.Synthetic != "" || !strings.HasPrefix(name, "json.") {
+			continue
+		}
+		if bufParam(fn) == nil && !strings.Contains(name, "Tokenizer") && !strings.Contains(name, "Decoder") {
+			continue // only code that consumes input text
+		}
+		isResliced := func(v ssa.Value) bool {
+			for _, o := range origins(v) {
+				switch x := o.(type) {
+				case *ssa.Slice:
+					if x.Low != nil {
+						if k, isK := constInt(x.Low); !isK || k > 0 {
+							return true
+						}
+					}
+				case *ssa.Call, *ssa.Extract:
+					return true // a remainder handed back by another parser
+				}
+			}
+			return false
+		}
+		kn := map[int64]int{}
+		for _, blk := range fn.Blocks {
+			for _, in := range blk.Instrs {
+				ia, ok := in.(*ssa.IndexAddr)
+				if !ok {
+					continue
+				}
+				if _, isSlice := ia.X.Type().Underlying().(*types.Slice); !isSlice {
+					continue
+				}
+				k, isK := constInt(ia.Index)
+				if !isK || !isResliced(ia.X) {
+					continue
+				}
+				kn[k]++
+				key := fmt.Sprintf("constindex:%s:[%d]", name, k)
+				if kn[k] > 1 {
+					key = fmt.Sprintf("%s#%d", key, kn[k])
+				}
+				lo, _, excl := lenInterval(ia.X, blk)
+				low := int64(0)
+				if lo != nil {
+					low = lo.Int64()
+				}
+				for excl[low] {
+					low++ // len(x) != low
+				}
+				proven := low > k
+				for _, o := range origins(ia.X) {
+					if mk, ok := o.(*ssa.MakeSlice); ok {
+						if n, isK := constInt(mk.Len); isK && n > k && len(origins(ia.X)) == 1 {
+							proven = true
+						}
+					}
+				}
+				if !proven {
+					// hasPrefix(x, "..") true edge
+					for _, cond := range trueAtoms(blk, 0) {
+						if call, ok := cond.(*ssa.Call); ok {
+							if f := staticCallee(call.Common()); f != nil && strings.HasPrefix(strings.ToLower(f.Name()), "hasprefix") && len(call.Common().Args) >= 1 && sameSliceSource(call.Common().Args[0], ia.X) {
+								proven = true
+							}
+						}
+					}
+				}
+				switch {
+				case proven:
+					b.addP(props, core.Discharged, key, c.InstrPos(ia), "len > index proven by the dominating tests")
+				case constIndexInvariants[key] != "":
+					b.addP(props, core.Discharged, key, c.InstrPos(ia), "invariant: "+constIndexInvariants[key])
+				default:
+					b.addP(props, core.Violation, key, c.InstrPos(ia), fmt.Sprintf("%s reads element %d of a slice it has just advanced, with no dominating test that %d more bytes remain: input that ends at that point panics with index out of range instead of being rejected", name, k, k+1))
+				}
+			}
+		}
+	}
+	return b.out
+}
